@@ -34,7 +34,7 @@ KMID_MAX = 1e12
 
 def floors(tier):
     return {"updates_judged": 3000, "accepted": 1500, "rejected": 200, "evictions": 300, "dense_compared": 1500,
-            "used_matrices_checked": 300, "restarted_runs": 20, "restarted_runs_with_smaller_memory": 10, "restored_histories_checked": 20, "runs_with_reused_gradient_buffer": 40, "runs_with_objective_redefined": 60, "filter_calls_judged": 1000, "filter_calls_dropping_points": 300, "pairs_of_histories_advanced_in_turn": 60, "matrices_re-read_before_their_next_update": 3000, "__nontrivial__": 30}
+            "used_matrices_checked": 300, "restarted_runs": 20, "restarted_runs_with_smaller_memory": 10, "restored_histories_checked": 20, "runs_with_reused_gradient_buffer": 40, "runs_with_a_callback_overwriting_the_state_it_is_handed": 30, "runs_ended_by_their_evaluation_budget": 30, "runs_with_objective_redefined": 60, "filter_calls_judged": 1000, "filter_calls_dropping_points": 300, "pairs_of_histories_advanced_in_turn": 60, "matrices_re-read_before_their_next_update": 3000, "__nontrivial__": 30}
 
 
 # ---------------------------------------------------------------------------
@@ -446,6 +446,12 @@ def run_real(spec, out):
     if spec.get("reuse_grad_buffer"):
         cfg["reuse_grad_buffer"] = True  # the user's gradient fills and returns one preallocated array
         out.count("runs_with_reused_gradient_buffer")
+    if int(P.spec["seed"]) % 4 == 3 and not spec.get("switch"):
+        cfg.update(hostile_user=True, cb="never")  # a callback (and functions) overwriting every array they are handed, state.x and state.jac included
+        out.count("runs_with_a_callback_overwriting_the_state_it_is_handed")
+    if int(P.spec["seed"]) % 5 == 2 and not spec.get("switch"):
+        cfg["maxfun"] = int([6, 10, 17, 30][int(P.spec["seed"]) // 5 % 4])  # an evaluation budget that ends the run (the last update of such a run is an update like any other)
+        out.count("runs_ended_by_their_evaluation_budget")
     with probes.Intercept(M, ["update_lbfgs_matrices", "get_cauchy_point"], frame_vars=("X", "G"), on_event=None) as ic:
         # on_event needs ic in scope: attach after construction
         ic.on_event = on_event
